@@ -14,7 +14,8 @@ RULE = ("inputs = for one concrete Sid per configured type: every subset of segm
         "alias-in-comma-list in the last segment, '**' for every contiguous span, 0-2 query filters from a 14-entry menu}, "
         "plus a malformed family; each under default flags, do_extrapolate=True (positional and keyword) and "
         "do_uniquify=True. distinct = distinct search strings; non-trivial = the reference denotation is non-empty or the "
-        "string is one of the SpilException shapes.")
+        "string is one of the SpilException shapes."
+        " Added: an alias last in a ',' list, ordered alias pairs, an alias last in a filter list; after every list naming an alias the alias alone is checked from cold caches.")
 ASSUMPTIONS = ["do_extrapolate=True is compared on strings (prefix closure of the default result)",
                "where the statement leaves the typing of an ambiguous query overlay open the oracle is required <= got <= allowed"]
 
